@@ -20,7 +20,7 @@ class Unit:
         self.bound = ""; self.timeout = 600; self.fns = []; self.stubs = []; self.ncovers = 0
         self.file = None; self.module = None; self.attach = None; self.crate = None
         self.harness_path = None; self.kind = "kani"; self.contract_for = None; self.pair = None
-        self.src = ""
+        self.src = ""; self.should_panic = False
 
     @property
     def uid(self):
@@ -80,6 +80,8 @@ def load_kani(pid):
                 c = re.match(r"\s*#\[kani::proof_for_contract\(\s*([^)]+?)\s*\)\]", lines[j])
                 if c:
                     u.contract_for = c.group(1)
+                if re.match(r"\s*#\[kani::should_panic\]", lines[j]):
+                    u.should_panic = True
                 fm = re.match(r"\s*(?:pub\s+)?fn\s+(\w+)\s*\(", lines[j])
                 if fm:
                     u.name = fm.group(1)
